@@ -520,8 +520,8 @@ func run(b *harness.B) {
 
 func main() {
 	harness.Main(harness.Spec{
-		ID: "C15",
-		Rule: "batch 0: full cross product of a boundary grid (neighbours of 0, 2^k for k in {1,8,31..33,62..65,95..97,126,127}, 2^128-1, 10^24, patterns) for Add/Sub/Mul/Div/Cmp (+WithOverflow and panicking forms) and grid x 64-bit grid for Mul64/Div64 — exhaustive over the grid; batch 1: divisor-directed cases c=q*v+r (v.Hi!=0, r in {0,1,v-1,random}) and hostile strings under an allocation monitor; other batches: random operands for every (bitlen a, bitlen b) class in 0..128 x 0..128; text forms per value. A case is non-trivial/distinct by (op family, bit lengths of operands, parities).",
+		ID:     "C15",
+		Rule:   "batch 0: full cross product of a boundary grid (neighbours of 0, 2^k for k in {1,8,31..33,62..65,95..97,126,127}, 2^128-1, 10^24, patterns) for Add/Sub/Mul/Div/Cmp (+WithOverflow and panicking forms) and grid x 64-bit grid for Mul64/Div64 — exhaustive over the grid; batch 1: divisor-directed cases c=q*v+r (v.Hi!=0, r in {0,1,v-1,random}) and hostile strings under an allocation monitor; other batches: random operands for every (bitlen a, bitlen b) class in 0..128 x 0..128; text forms per value. A case is non-trivial/distinct by (op family, bit lengths of operands, parities).",
 		Assume: []string{"math/big is the arithmetic oracle", "the value of a wrapped (overflowed) result is unspecified and not judged"},
 		Batches: func(t string) int {
 			if t == "quick" {
